@@ -12,7 +12,7 @@ A spec is a dict:
   {"t": "Fraction"|"Select", "q": field, "v": spec}
   {"t": "Label"|"UntypedLabel", "ch": {key: spec}}   {"t": "Index"|"Branch", "ch": [spec...]}
 Optional "qk" on any quantity-bearing node selects the quantity kind
-(lambda | def | str | named | cached | named_cached); default lambda.
+(lambda | def | str | named | named_empty | cached | named_cached); default lambda.
 Records are dicts with fields x, y (numbers), c (category), s (selection), b (bag string), v (2-vector).
 """
 import json
@@ -88,6 +88,8 @@ def quantity(field, qk="lambda", nid=None, failing=False):
         return field
     if qk == "named":
         return named("q_" + field, _fresh_lambda(field))
+    if qk == "named_empty":
+        return named("", _fresh_lambda(field))
     if qk == "cached":
         return cached(_fresh_lambda(field))
     if qk == "named_cached":
@@ -104,6 +106,8 @@ def expected_name(field, qk):
         return "_def_" + field
     if qk == "str":
         return field
+    if qk == "named_empty":
+        return ""  # an empty string is a name like any other (it is not "no name")
     return "q_" + field
 
 
@@ -388,6 +392,9 @@ def DX():
         # named members of a collection in a name-suppressing position
         b2({"t": "Branch", "ch": [{"t": "Sum", "q": "y", "qk": "named"}, {"t": "Maximize", "q": "y", "qk": "named"}]}),
         cat({"t": "UntypedLabel", "ch": {"a": {"t": "Average", "q": "y", "qk": "named"}, "b": cnt}}),
+        # centres given in no particular order (the partition is defined by the set of centres)
+        {"t": "CentrallyBin", "p": [3.0, 0.0, 1.0], "q": "x", "v": cnt},
+        {"t": "CentrallyBin", "p": [1.0, 3.0, 0.0], "q": "x", "v": sy, "nf": cnt},
     ]
     return out
 
